@@ -61,6 +61,16 @@ def gen_world(rng, preds):
         cids = gen_ids(rng, len(cnames), cid_style)
         comps = [(gen_cfgs(rng, preds, 0.25), cids[j], cn) for j, cn in enumerate(cnames)]
         archs.append((gen_cfgs(rng, preds, 0.3), aids[i], an, comps))
+    if len(preds) >= 2 and rng.random() < 0.2:
+        # the SAME archetype name declared twice under different predicates (the feature-gated
+        # alternative-layout pattern): whenever at most one of them is enabled the declaration is
+        # the one-archetype declaration
+        i = rng.randrange(len(archs))
+        p, q = rng.sample(preds, 2)
+        cf0, aid0, an0, comps0 = archs[i]
+        archs[i] = ([p], aid0, an0, comps0)
+        cn2 = rng.sample(COMPS, min(rng.choice([1, 2, 3]), len(COMPS)))
+        archs.insert(i + 1, ([q], None, an0, [([], None, c) for c in cn2]))
     return ("W" + rng.choice(["x", "Foo", "Bar"]), archs)
 
 
@@ -170,6 +180,16 @@ def gen_cases(seed, n_worlds, kmax, queries_per_world=3):
         preds = rng.sample(PREDS, k)
         w = gen_world(rng, preds)
         qs = [gen_query(rng, w, preds) for _ in range(queries_per_world)]
+        if wi % 3 == 1 and len(w[1]) >= 2:
+            # a typed entity parameter that is cfg-disabled together with the archetype it names
+            gated = [a for a in w[1] if a[0]]
+            free = [a for a in w[1] if not a[0] and any(not c[0] for c in a[3])]
+            if gated and free:
+                x = rng.choice(gated)
+                y = rng.choice(free)
+                c = rng.choice([c[2] for c in y[3] if not c[0]])
+                qs.append([([], rng.random() < 0.4, "C." + c), (list(x[0]), False, "E." + x[2])])
+                qs.append([(list(x[0]), False, "D." + x[2]), ([], False, "C." + c)])
         if wi % 3 == 0:
             # archetypes / components without any cfg: enabled under every assignment
             plain = [(a[2], [c[2] for c in a[3] if not c[0]]) for a in w[1] if not a[0]]
@@ -185,6 +205,10 @@ def gen_cases(seed, n_worlds, kmax, queries_per_world=3):
             rs = ",".join(f"{p}={1 if v else 0}" for p, v in rho.items()) or "-"
             nm, ws = fmt_world(w)
             ew = erase_world(w, rho)
+            if len({a[2] for a in ew[1]}) != len(ew[1]):
+                # two ENABLED archetypes with one name: not a declaration rustc accepts (a plain
+                # redefinition error, with and without the attributes), outside every property
+                continue
             _, ews = fmt_world(ew)
             for qi, q in enumerate([None] + qs):
                 cid += 1
@@ -353,6 +377,9 @@ def run_oracles(cases, meta, outputs):
                             break
             if dw is not None and o["query"].startswith("ok") and not expected_match(dw, q, rho):
                 hits.append({"property": "C05", "case": cid, "class": "empty-accepted", "what": "query matching no archetype was accepted"})
+            if o["query"].startswith("err parse:other") and oe["query"].startswith("ok"):
+                hits.append({"property": "C05", "case": cid, "class": "valid-query-rejected",
+                             "what": f"the query is rejected ({o['query'][:120]}) although the same query with its cfg-disabled parameters not written is accepted ({oe['query'][:120]}): a disabled parameter does not constrain, whatever it names"})
             if "GENERATORS-DISAGREE" in o["query"]:
                 hits.append({"property": "C05", "case": cid, "class": "generators-disagree", "what": o["query"][:300]})
     return hits
